@@ -16,6 +16,9 @@ type Write struct {
 	Site  ssa.Instruction // instruction in the summarised function (a store or a call)
 	Deep  ssa.Instruction // the instruction that finally performs the write
 	Chain []string        // callee names from Site down to Deep
+	// Vals: for stores of pointer-like values, what is stored (paths in the
+	// summarised function's terms; values created inside callees are omitted).
+	Vals []Path
 }
 
 // Effects is the write summary of a function.
@@ -158,7 +161,13 @@ func (u *Universe) effects1(fn *ssa.Function) *Effects {
 		for _, in := range b.Instrs {
 			switch x := in.(type) {
 			case *ssa.Store:
-				addW(u.AddrPaths(x.Addr), "store", in, in, nil)
+				var vals []Path
+				if pointerLike(x.Val.Type()) {
+					vals = u.PathsOf(x.Val)
+				}
+				for _, p := range u.AddrPaths(x.Addr) {
+					e.Writes = append(e.Writes, Write{Path: p, Kind: "store", Site: in, Deep: in, Vals: vals})
+				}
 			case *ssa.MapUpdate:
 				var ps []Path
 				for _, p := range u.PathsOf(x.Map) {
@@ -266,12 +275,104 @@ func (u *Universe) liftWrite(e *Effects, w Write, site ssa.Instruction, callee *
 		}
 		ps = out
 	}
+	var vals []Path
+	for _, v := range w.Vals {
+		switch vr := v.Root.(type) {
+		case *ssa.Parameter:
+			if vr.Parent() != callee {
+				vals = append(vals, v)
+				continue
+			}
+			vi := -1
+			for i, pp := range callee.Params {
+				if pp == vr {
+					vi = i
+				}
+			}
+			if va := arg(vi); va != nil {
+				vps := u.pathsOf(va, busy)
+				for _, s := range v.Sels {
+					vps = u.extendAll(vps, s, busy)
+				}
+				vals = append(vals, vps...)
+			}
+		case *ssa.Global:
+			vals = append(vals, v)
+		}
+	}
+	vals = dedupPaths(vals)
 	for _, p := range ps {
 		if w.Path.Trunc {
 			p.Trunc = true
 		}
-		e.Writes = append(e.Writes, Write{Path: p, Kind: w.Kind, Site: site, Deep: w.Deep, Chain: chain})
+		e.Writes = append(e.Writes, Write{Path: p, Kind: w.Kind, Site: site, Deep: w.Deep, Chain: chain, Vals: vals})
 	}
+}
+
+// RefineHeap makes stores performed by callees into objects allocated by
+// their callers visible to the origin analysis: it computes the effects of
+// the given functions, records for every local object which pointer values
+// callees stored into its fields, and resets the memo tables so that later
+// queries resolve loads from those fields to the stored values as well.
+func (u *Universe) RefineHeap(roots []*ssa.Function, rounds int) {
+	for i := 0; i < rounds; i++ {
+		added := false
+		seen := map[*ssa.Function]bool{}
+		var visit func(fn *ssa.Function)
+		visit = func(fn *ssa.Function) {
+			if fn == nil || seen[fn] || !u.Transparent(fn) {
+				return
+			}
+			seen[fn] = true
+			for _, w := range u.EffectsOf(fn).Writes {
+				a, ok := w.Path.Root.(*ssa.Alloc)
+				if !ok || w.Kind != "store" || len(w.Vals) == 0 || len(w.Path.Sels) == 0 || w.Path.Trunc {
+					continue
+				}
+				if w.Site == w.Deep {
+					continue // direct stores are found by localStores already
+				}
+				for _, v := range w.Vals {
+					if v.Root == ssa.Value(a) {
+						continue
+					}
+					k := w.Path.key() + "<-" + v.key()
+					if !u.heapSeen[k] {
+						u.heapSeen[k] = true
+						u.heapStores[a] = append(u.heapStores[a], heapStore{w.Path.Sels, v})
+						added = true
+					}
+				}
+			}
+			for _, b := range fn.Blocks {
+				for _, in := range b.Instrs {
+					switch x := in.(type) {
+					case ssa.CallInstruction:
+						for _, c := range u.Callees(x) {
+							visit(c)
+						}
+					case *ssa.MakeClosure:
+						if f, ok := x.Fn.(*ssa.Function); ok {
+							visit(f)
+						}
+					}
+				}
+			}
+		}
+		for _, r := range roots {
+			visit(r)
+		}
+		if !added {
+			return
+		}
+		u.pathMemo = map[ssa.Value][]Path{}
+		u.effMemo = map[*ssa.Function]*Effects{}
+	}
+}
+
+type heapStore struct {
+	sels []Sel
+	val  Path
 }
 
 func (u *Universe) callEffects(e *Effects, fn *ssa.Function, c ssa.CallInstruction) {
